@@ -59,13 +59,16 @@ Definition chk_entries_pinned := chk_entries false.
 (* the whole Gopher0 menu: response decoded with surrogateescape *)
 Definition SRV_NAME : str := lit "gopher.example"%string.
 Definition SRV_PORT : Z := 70%Z.
-Definition chk_menu (fixed : bool)
+(* the server's own identity (server_name, server_port: what a missing host / port of a link means) is a
+   parameter of the case *)
+Definition chk_menu_id (srv_name : str) (srv_port : Z) (fixed : bool)
   (c : (str * bool) * (str * (list str * str))) : bool :=
   let '((sel, is_file), (content, (existing, response))) := c in
   match k_entries fixed sel is_file content existing with
-  | Ok es => opt_eqb str_eqb (writedir [] [] (gopher0_line SRV_NAME SRV_PORT) es) (Some response)
+  | Ok es => opt_eqb str_eqb (writedir [] [] (gopher0_line srv_name srv_port) es) (Some response)
   | Raise _ => false
   end.
+Definition chk_menu := chk_menu_id SRV_NAME SRV_PORT.
 Definition chk_menu_fixed := chk_menu true.
 Definition chk_menu_pinned := chk_menu false.
 
@@ -104,6 +107,15 @@ Definition chk_world (c : bool * (((str * bool) * (str * list str)) * observatio
   match obs with
   | inl impl => chk_entries fixed ((sel, is_file), (content, (existing, impl)))
   | inr response => chk_menu fixed ((sel, is_file), (content, (existing, response)))
+  end.
+
+(* ((this server's name, this server's port), a chk_world case): the Gopher0 / Gopher+ menu is rendered by the
+   model for THAT server; the entry list does not depend on it *)
+Definition chk_world_id (c : (str * Z) * (bool * (((str * bool) * (str * list str)) * observation))) : bool :=
+  let '((srv_name, srv_port), (fixed, (((sel, is_file), (content, existing)), obs))) := c in
+  match obs with
+  | inl impl => chk_entries fixed ((sel, is_file), (content, (existing, impl)))
+  | inr response => chk_menu_id srv_name srv_port fixed ((sel, is_file), (content, (existing, response)))
   end.
 
 (* ---- gophermaps inside a ZIP archive (handlers/ZIP.py VFSZip) ----
